@@ -72,7 +72,7 @@ Recipients(st, x, excl) ==
     LET conn == {c \in Client : st.srv.cl[c].conn}
     IN CASE x.mode = "all"    -> conn \ excl
          [] x.mode = "except" -> (conn \ excl) \ {x.to}
-         [] OTHER             -> IF x.to \in conn /\ x.to \notin excl /\ st.ev.sess[x.to] = x.sess THEN {x.to} ELSE {}
+         [] OTHER             -> IF x.to \in conn /\ x.to \notin excl THEN {x.to} ELSE {}
 
 SendEv(net, cs, m) == [c \in Client |-> IF c \in cs THEN [net[c] EXCEPT !.sev[m.t] = Append(@, m)] ELSE net[c]]
 
